@@ -1318,12 +1318,8 @@ emitjump(struct jump *j)
 }
 
 void
-emitfunc(struct func *f, bool global)
+funcchecklabels(struct func *f)
 {
-	struct block *b;
-	struct inst **inst, **instend;
-	struct decl *p;
-	struct value *v;
 	struct gotolabel *g;
 	size_t i;
 
@@ -1332,6 +1328,16 @@ emitfunc(struct func *f, bool global)
 		if (g && !g->defined)
 			error(&g->loc, "label '%s' is used but not defined in function '%s'", g->label->label.u.name, f->name);
 	}
+}
+
+void
+emitfunc(struct func *f, bool global)
+{
+	struct block *b;
+	struct inst **inst, **instend;
+	struct decl *p;
+	struct value *v;
+
 	if (f->end->jump.kind == JUMP_NONE) {
 		v = NULL;
 		/* implicitly return 0 from main if we reach the end of the function */
